@@ -209,6 +209,9 @@ class C14(runner.Check):
             new["alpha"] = model["alpha"]
         return new
 
+    def same_outcome(self, cfg, sym_out, real_out):
+        return sym_out.get("k") == real_out.get("k")
+
     def signature(self, cfg, clause, values, viol):
         names = sorted(set(v[0] for v in viol))
         return f"C14/{cfg['space']}/{cfg['reg']}/{'+'.join(names)[:200]}"
